@@ -15,28 +15,30 @@ Definition upd {A} (f : Z -> option A) (k : Z) (v : option A) : Z -> option A :=
 
 Section Spec.
   Variable tmpl : Type.
-  Variable compile : src -> cres tmpl.
+  Variable compile : cmode -> src -> cres tmpl.
   Variable loader : Z -> Z -> name -> lres.
   Variable builtin_has : rk -> Z -> option Z.                 (* the built-in filters/tests/globals *)
   Variable render : tmpl -> (rk -> Z -> option Z) -> obs.
 
   (* ---- templates ---- *)
-  Record contents := { tpl : name -> option src; cur_loader : option Z }.
+  (* a held template is a source together with the configuration that was current when it was added or
+     loaded ("changing it at a later point only affects future templates loaded") *)
+  Record contents := { tpl : name -> option (Z * src); cur_loader : option Z; cur_cfg : Z }.
 
-  Definition contents_new : contents := {| tpl := fun _ => None; cur_loader := None |}.
+  Definition contents_new : contents := {| tpl := fun _ => None; cur_loader := None; cur_cfg := 0 |}.
 
   (* an addition that fails to compile leaves the environment as it was *)
   Definition spec_add (c : contents) (n : name) (x : src) : contents * option Z :=
-    match compile x with
+    match compile (MTemplate (cur_cfg c)) x with
     | CErr e => (c, Some e)
-    | COk _ => ({| tpl := upd (tpl c) n (Some x); cur_loader := cur_loader c |}, None)
+    | COk _ => ({| tpl := upd (tpl c) n (Some (cur_cfg c, x)); cur_loader := cur_loader c; cur_cfg := cur_cfg c |}, None)
     end.
 
   (* a name renders the source the environment holds for it; a name it does not hold is asked from
      the loader, and the source obtained is kept from then on *)
   Definition spec_get (c : contents) (n : name) (now : Z) : contents * gres tmpl :=
     match tpl c n with
-    | Some x => (c, match compile x with COk t => GOk t | CErr e => GErr e end)
+    | Some (k, x) => (c, match compile (MTemplate k) x with COk t => GOk t | CErr e => GErr e end)
     | None =>
         match cur_loader c with
         | None => (c, GErr E_TemplateNotFound)
@@ -45,9 +47,9 @@ Section Spec.
             | LMissing => (c, GErr E_TemplateNotFound)
             | LFail e => (c, GErr e)
             | LFound x =>
-                match compile x with
+                match compile (MTemplate (cur_cfg c)) x with
                 | CErr e => (c, GErr e)
-                | COk t => ({| tpl := upd (tpl c) n (Some x); cur_loader := cur_loader c |}, GOk t)
+                | COk t => ({| tpl := upd (tpl c) n (Some (cur_cfg c, x)); cur_loader := cur_loader c; cur_cfg := cur_cfg c |}, GOk t)
                 end
             end
         end
@@ -56,9 +58,10 @@ Section Spec.
   Definition spec_step (c : contents) (o : sop) : contents * sout tmpl :=
     match o with
     | OAddBorrowed n x | OAddOwned n x => let (c', e) := spec_add c n x in (c', SAdd e)
-    | ORemove n => ({| tpl := upd (tpl c) n None; cur_loader := cur_loader c |}, SUnit)
-    | OClear => ({| tpl := fun _ => None; cur_loader := cur_loader c |}, SUnit)
-    | OSetLoader l => ({| tpl := tpl c; cur_loader := Some l |}, SUnit)
+    | ORemove n => ({| tpl := upd (tpl c) n None; cur_loader := cur_loader c; cur_cfg := cur_cfg c |}, SUnit)
+    | OClear => ({| tpl := fun _ => None; cur_loader := cur_loader c; cur_cfg := cur_cfg c |}, SUnit)
+    | OSetLoader l => ({| tpl := tpl c; cur_loader := Some l; cur_cfg := cur_cfg c |}, SUnit)
+    | OSetConfig k => ({| tpl := tpl c; cur_loader := cur_loader c; cur_cfg := k |}, SUnit)
     | OGet n now => let (c', r) := spec_get c n now in (c', SGot r)
     end.
 
@@ -96,6 +99,9 @@ Section Spec.
   (* what rendering [n] gives at time [now] *)
   Definition s_observe (e : senv) (n : name) (now : Z) : obs := s_show_get e (snd (spec_get (sc e) n now)).
 
+  Definition s_adhoc_mode (how c : Z) : cmode :=
+    if how <? 4 then MTemplate c else if how <? 6 then MExpr else MAnalysis.
+
   (* operations act on the current environment only; a clone is an equal, independent environment *)
   Definition sworld_step (w : sworld) (o : wop) : sworld * obs :=
     let e := scur w in
@@ -110,7 +116,10 @@ Section Spec.
                | Some e' => ({| scur := e'; sother := Some e |}, o_unit)
                | None => (w, o_unit)
                end
-    | WRenderStr x => (w, match compile x with COk t => render t (sr e) | CErr c => o_err c end)
+    | WAdhoc how n x =>
+        (* an ad-hoc source is compiled under the current configuration and rendered; it is not part of
+           the contents before or after, whatever name it carries *)
+        (w, match compile (s_adhoc_mode how (cur_cfg (sc e))) x with COk t => render t (sr e) | CErr c => o_err c end)
     | WRenderBadCtx n now panics =>
         let (c', r) := spec_get (sc e) n now in
         ({| scur := {| sc := c'; sr := sr e |}; sother := sother w |},
